@@ -260,7 +260,7 @@ pub fn probes(w: &World, rec: &mut Recorder, ix: &Ix, cfg: &MatrixCfg, rng_salt:
                     None => continue,
                 };
                 for cand in ids_of_section(&w.last_proj, sec).into_iter().filter(|c| *c != cur) {
-                    for other in ["feeAuthC2", "collectAuthC2", "rewardAuthC2", "U3"] {
+                    for other in ["feeAuthC2", "collectAuthC2", "rewardAuthC2", "extAuthC2", "badgeAuthC2", "delAuthC2", "U3"] {
                         if let Some(k) = key_of(w, &cand) {
                             let mut v = ix.clone();
                             v.metas[j].pubkey = k;
@@ -527,7 +527,16 @@ pub fn run(cfg: &MatrixCfg, rec: &mut Recorder) {
     { let ix = w.ix_set_reward_emissions("P1", 0, 500u128 << 64, false); step(&mut w, rec, cfg, &mut n, ix); }
     { let ix = w.ix_set_reward_emissions("P2", 0, 700u128 << 64, true); step(&mut w, rec, cfg, &mut n, ix); }
     let ix = w.ix_init_reward("P2", 2, "C", true);
-    step(&mut w, rec, cfg, &mut n, ix);
+    if step(&mut w, rec, cfg, &mut n, ix) {
+        // funded: a reward vault over the pool's own token B, owned by the pool - the one account a transfer from "vault B"
+        // would also succeed from
+        let vault = w.pools["P2"].rewards[2].1;
+        let mi = w.mints["C"].clone();
+        w.must("fund reward vault", &spl_token::instruction::mint_to(&spl_token::ID, &mi.key, &vault, &mi.auth, &[], 1 << 45).unwrap());
+        let mut ww = w.clone();
+        rec.reset(&mut ww, json!({"resume": true}));
+        w.last_proj = ww.last_proj.clone();
+    }
     { let ix = w.ix_set_reward_authority("P1", 0, "U3"); step(&mut w, rec, cfg, &mut n, ix); }
     { let ix = w.ix_set_reward_authority_by_super("P1", 0, "rewardAuthC1"); step(&mut w, rec, cfg, &mut n, ix); }
     // ---- pool / tier / config settings
